@@ -57,6 +57,13 @@ func vConvLockRun(op vConvLockOp) (line string) {
 		k := int(kf)
 		peer := transport.Peer{ID: transport.PeerID(fmt.Sprintf("p%d", k)), Address: fmt.Sprintf("h%d:5555", k)}
 		tok := name
+		// a leading "x" runs the call with a NEGATIVE validity (the conversation it creates / resets is expired at once),
+		// so that live and expired conversations are mixed in one manager
+		cMan.validity = validity
+		if strings.HasPrefix(name, "x") {
+			name = name[1:]
+			cMan.validity = -time.Hour
+		}
 		pick := func() (conversationID, bool) {
 			if len(started) == 0 {
 				return "", false
@@ -165,8 +172,10 @@ func TestVerifC07ConvLock(t *testing.T) {
 			// expired at once: never refused
 			vConvLockOp{"convlock", false, [][]interface{}{c("startR", 1), c("startR", 1), c("evict", 0), c("startL", 1), c("reset", 0), c("startL", 1)}},
 			vConvLockOp{"convlock", true, [][]interface{}{c("check", 0), c("done", 0), c("reset", 0), c("evict", 0)}},
+			// mixed expiry: the last blocking conversation of p1 is expired (no refusal), evict removes exactly the expired ones, reset revives / kills
+			vConvLockOp{"convlock", true, [][]interface{}{c("startR", 1), c("xstartL", 2), c("xstartS", 1), c("startL", 2), c("startL", 2), c("evict", 0), c("xreset", 0), c("startR", 1), c("evict", 0), c("xstartR", 0), c("reset", 4), c("startL", 0), c("evict", 0)}},
 		)
-		names := []string{"startR", "startL", "startS", "startR", "startL", "done", "reset", "evict", "check"}
+		names := []string{"startR", "startL", "startS", "startR", "startL", "done", "reset", "evict", "check", "xstartR", "xstartL", "xstartS", "xreset", "evict"}
 		for i := 0; i < n; i++ {
 			var calls [][]interface{}
 			for j, k := 0, 3+rng.Intn(12); j < k; j++ {
